@@ -77,6 +77,26 @@ theorem batch_is_log (s0 : QSys) (h0 : s0.Init) (es : List QSysEv) (i : Nat) (c 
     | _ => exact h
   | _ => rw [hpc] at h; exact h
 
+/-- the initial states the driver builds (`Drv/C12.lean`: empty store, any clock, any list of calls, each either not yet
+started or standing at its first command with arrival clock = the system clock) are admissible: `Init` and the
+arrival-clock hypothesis of `not_early` hold -/
+theorem init_of_calls (clock : Int) (fresh : Nat) (calls : List (QOp × Bool)) :
+    let s0 : QSys := { clock := clock, fresh := fresh, clients := calls.map fun (x : QOp × Bool) =>
+      if x.2 then ({ op := x.1, pc := .start } : QClient) else ({ op := x.1, pc := x.1.begin, started := true, arrival := clock } : QClient) }
+    s0.Init ∧ ∀ c ∈ s0.clients, c.started = true → c.arrival ≤ s0.clock := by
+  intro s0
+  refine ⟨⟨RStore.consistent_empty, fun id => by simp [s0], ?_⟩, ?_⟩
+  · intro c hc
+    obtain ⟨x, _, rfl⟩ := List.mem_map.1 hc
+    by_cases hx : x.2 = true
+    · rw [if_pos hx]; exact ⟨rfl, fun h => by cases h⟩
+    · rw [if_neg hx]; exact ⟨rfl, fun _ => rfl⟩
+  · intro c hc hs
+    obtain ⟨x, _, rfl⟩ := List.mem_map.1 hc
+    by_cases hx : x.2 = true
+    · rw [if_pos hx] at hs; cases hs
+    · rw [if_neg hx]; exact Int.le_refl _
+
 /-! ## 1. ids -/
 
 /-- ids are never reused: every id in `probes:items` / `probes:queue` is below the counter `fresh`; the `k`-th accepted
